@@ -27,6 +27,7 @@ pub struct Norm<'a> {
     pub return_no: usize,
     pub forpat_no: usize,
     pub tmp_no: usize,
+    pub split_no: usize,
     pub call_no: BTreeMap<String, usize>,
     pub let_no: BTreeMap<String, usize>,
     pub hoisted: Vec<Stmt>,
@@ -46,7 +47,7 @@ impl<'a> Norm<'a> {
     pub fn new(spec: &'a FnSpec, unit: &'a Unit, canary: bool, fname: &str) -> Self {
         Norm {
             spec, unit, canary, fname: fname.to_string(),
-            loop_no: 0, closure_no: 0, if_no: 0, match_no: 0, assert_no: 0, return_no: 0, forpat_no: 0, tmp_no: 0,
+            loop_no: 0, closure_no: 0, if_no: 0, match_no: 0, assert_no: 0, return_no: 0, forpat_no: 0, tmp_no: 0, split_no: 0,
             call_no: Default::default(), let_no: Default::default(), hoisted: vec![], log: Default::default(),
             raws: vec![], used_anchors: Default::default(), avail_anchors: Default::default(), errors: vec![],
             closure_depth: 0, canaries: vec![],
@@ -240,6 +241,12 @@ impl<'a> Norm<'a> {
 
     /// R-SLICEPAT and R-LETCHAIN on an `if`.
     fn rewrite_if(&mut self, i: &mut ExprIf) {
+        // R-REFPAT on `if let`: derefs go to the start of the then-branch
+        if let Expr::Let(l) = &mut *i.cond {
+            let mut derefs: Vec<Stmt> = vec![];
+            self.strip_ref_pats(&mut l.pat, &mut derefs);
+            for (k, d) in derefs.into_iter().enumerate() { i.then_branch.stmts.insert(k, d); }
+        }
         // slice pattern: if let [a, ..] = E
         if let Expr::Let(l) = &*i.cond {
             if let Some((n, binds)) = Self::slice_pat_bindings(&l.pat) {
@@ -296,6 +303,113 @@ impl<'a> Norm<'a> {
                 }
             }
         }
+    }
+}
+
+impl<'a> Norm<'a> {
+    /// R-REFPAT: replace every reference pattern `&..&x` inside `p` by a fresh binder and emit `let x = *..*fresh;`
+    fn strip_ref_pats(&mut self, p: &mut Pat, out: &mut Vec<Stmt>) {
+        match p {
+            Pat::Reference(_) => {
+                let mut depth = 0usize;
+                let mut cur: Pat = p.clone();
+                while let Pat::Reference(r) = cur { depth += 1; cur = (*r.pat).clone(); }
+                match &cur {
+                    Pat::Ident(pi) if pi.subpat.is_none() && pi.by_ref.is_none() => {
+                        self.tmp_no += 1;
+                        let fresh = Ident::new(&format!("__vx_r{}", self.tmp_no), Span::call_site());
+                        let mut ex: Expr = parse_quote!(#fresh);
+                        for _ in 0..depth { ex = parse_quote!(*#ex); }
+                        out.push(parse_quote!(let #cur = #ex;));
+                        *p = parse_quote!(#fresh);
+                        self.bump("R-REFPAT");
+                    }
+                    _ => self.errors.push(format!("reference pattern over a non-identifier in {}", self.fname)),
+                }
+            }
+            Pat::Tuple(t) => { for e in t.elems.iter_mut() { self.strip_ref_pats(e, out); } }
+            Pat::TupleStruct(t) => { for e in t.elems.iter_mut() { self.strip_ref_pats(e, out); } }
+            Pat::Paren(t) => self.strip_ref_pats(&mut t.pat, out),
+            Pat::Type(t) => self.strip_ref_pats(&mut t.pat, out),
+            Pat::Struct(st) => { for f in st.fields.iter_mut() { self.strip_ref_pats(&mut f.pat, out); } }
+            _ => {}
+        }
+    }
+
+    fn letsplit_expr(&mut self, e: &mut Expr, pre: &mut Vec<Stmt>) {
+        match e {
+            Expr::Try(t) => self.letsplit_expr(&mut t.expr, pre),
+            Expr::Await(t) => self.letsplit_expr(&mut t.base, pre),
+            Expr::Paren(t) => self.letsplit_expr(&mut t.expr, pre),
+            Expr::MethodCall(mc) => {
+                if !self.spec.letsplit.contains(&mc.method.to_string()) { return; }
+                let simple = |x: &Expr| matches!(x, Expr::Path(_) | Expr::Field(_) | Expr::Lit(_));
+                if !simple(&mc.receiver) {
+                    self.letsplit_expr(&mut mc.receiver, pre);
+                    self.split_no += 1;
+                    let t = Ident::new(&format!("__vx_t{}", self.split_no), Span::call_site());
+                    let r = &mc.receiver;
+                    pre.push(parse_quote!(let mut #t = #r;));
+                    mc.receiver = Box::new(parse_quote!(#t));
+                    self.bump("R-LETSPLIT");
+                }
+                // `&mut CALL` arguments (evaluated after the now-simple receiver): bound in order
+                for a in mc.args.iter_mut() {
+                    if let Expr::Reference(rf) = a {
+                        if rf.mutability.is_some() && matches!(&*rf.expr, Expr::MethodCall(_) | Expr::Call(_)) {
+                            self.split_no += 1;
+                            let t = Ident::new(&format!("__vx_t{}", self.split_no), Span::call_site());
+                            let inner = &rf.expr;
+                            pre.push(parse_quote!(let mut #t = #inner;));
+                            rf.expr = Box::new(parse_quote!(#t));
+                            self.bump("R-LETSPLIT");
+                        }
+                    }
+                }
+            }
+            _ => {}
+        }
+    }
+
+    /// root `R.peek_mut()` of a method chain: rename to `peek`, return R
+    fn peek_mut_root(e: &mut Expr) -> Option<Expr> {
+        if let Expr::MethodCall(mc) = e {
+            if mc.method == "peek_mut" && mc.args.is_empty() {
+                mc.method = Ident::new("peek", mc.method.span());
+                return Some((*mc.receiver).clone());
+            }
+            return Self::peek_mut_root(&mut mc.receiver);
+        }
+        None
+    }
+    fn single_binder(p: &Pat) -> Option<Ident> {
+        match p {
+            Pat::Ident(pi) => Some(pi.ident.clone()),
+            Pat::TupleStruct(t) if t.elems.len() == 1 => Self::single_binder(&t.elems[0]),
+            Pat::Paren(t) => Self::single_binder(&t.pat),
+            _ => None,
+        }
+    }
+}
+
+/// R-MAP(peek_mut): `PeekMut::pop(X)` -> `R.vx_peekmut_pop()` for the binder X of the enclosing `while let .. = R.peek_mut()..`
+struct PeekMutPop { binder: Ident, recv: Expr, replaced: usize, other_uses: usize }
+impl VisitMut for PeekMutPop {
+    fn visit_expr_mut(&mut self, e: &mut Expr) {
+        if let Expr::Call(c) = e {
+            if squash(&ts(&c.func)).ends_with("PeekMut::pop") && c.args.len() == 1 {
+                if let Expr::Path(p) = &c.args[0] {
+                    if p.path.is_ident(&self.binder) {
+                        let r = &self.recv;
+                        *e = parse_quote!(#r.vx_peekmut_pop());
+                        self.replaced += 1;
+                        return;
+                    }
+                }
+            }
+        }
+        if let Expr::Path(p) = e { if p.path.is_ident(&self.binder) { self.other_uses += 1; } }
+        visit_mut::visit_expr_mut(self, e);
     }
 }
 
@@ -418,15 +532,63 @@ impl<'a> VisitMut for Norm<'a> {
     }
 
     fn visit_block_mut(&mut self, b: &mut Block) {
-        let old = std::mem::take(&mut b.stmts);
+        let mut old = std::mem::take(&mut b.stmts);
+        // R-LETSPLIT (@letsplit m1 m2): in a `let` initialiser, the receiver chain of `.m(..)` is bound by `let mut __vx_tK = RECV;`
+        if !self.spec.letsplit.is_empty() {
+            let mut out: Vec<Stmt> = vec![];
+            for mut st in old {
+                if let Stmt::Local(l) = &mut st {
+                    if let Some(init) = &mut l.init {
+                        let mut pre: Vec<Stmt> = vec![];
+                        self.letsplit_expr(&mut init.expr, &mut pre);
+                        out.extend(pre);
+                    }
+                } else if let Stmt::Expr(Expr::Assign(a), _) = &mut st {
+                    if matches!(&*a.left, Expr::Path(_) | Expr::Field(_)) {
+                        let mut pre: Vec<Stmt> = vec![];
+                        self.letsplit_expr(&mut a.right, &mut pre);
+                        out.extend(pre);
+                    }
+                }
+                out.push(st);
+            }
+            old = out;
+        }
         for mut s in old {
             // pre-anchors
             let mut before: Vec<Stmt> = vec![];
             let mut after: Vec<Stmt> = vec![];
             // statement-level macros
             if let Stmt::Macro(sm) = &s {
-                if let Some(e) = self.rewrite_macro(&sm.mac.clone()) {
+                let saved0 = std::mem::take(&mut self.hoisted);
+                let rewritten = self.rewrite_macro(&sm.mac.clone());
+                let mine0 = std::mem::replace(&mut self.hoisted, saved0);
+                b.stmts.extend(mine0);
+                if let Some(e) = rewritten {
                     s = Stmt::Expr(e, Some(Default::default()));
+                }
+            }
+            // R-FORLOOP (@forloop K): Rust's own desugaring of `for`, with the VxIter model as the iterator:
+            // `'l: for P in E { B }` -> `let mut __vx_forK = E.into_iter(); 'l: loop { let Some(P) = __vx_forK.next() else { break; }; B }`
+            if let Stmt::Expr(Expr::ForLoop(f), semi) = &s {
+                let n = self.loop_no + 1;
+                if self.spec.forloop.contains(&n) {
+                    let itv = Ident::new(&format!("__vx_for{}", n), Span::call_site());
+                    let (pat, ex, body, label) = (&f.pat, &f.expr, &f.body.stmts, &f.label);
+                    let mut first: Stmt = match &**ex {
+                        Expr::Path(_) | Expr::MethodCall(_) | Expr::Call(_) | Expr::Field(_) => parse_quote!(let mut #itv = #ex.into_iter();),
+                        _ => parse_quote!(let mut #itv = (#ex).into_iter();),
+                    };
+                    let saved0 = std::mem::take(&mut self.hoisted);
+                    self.visit_stmt_mut(&mut first);
+                    let mine0 = std::mem::replace(&mut self.hoisted, saved0);
+                    b.stmts.extend(mine0);
+                    b.stmts.push(first);
+                    let head_id = Ident::new(&format!("__vx_anchor_loop{}_head", n), Span::call_site());
+                    let bound_id = Ident::new(&format!("__vx_anchor_loop{}_bound", n), Span::call_site());
+                    let lp: Expr = parse_quote!(#label loop { #head_id!(); let Some(#pat) = #itv.next() else { break; }; #bound_id!(); #(#body)* });
+                    s = Stmt::Expr(lp, *semi);
+                    self.bump("R-FORLOOP");
                 }
             }
             if let Stmt::Local(l) = &s {
@@ -478,7 +640,7 @@ impl<'a> VisitMut for Norm<'a> {
                     after.extend(self.anchor(&format!("after-let {}#{}", name, k)));
                     if k == 1 { after.extend(self.anchor(&format!("after-let {}", name))); }
                     // R-LETTYPE
-                    if let (Some(ty), Pat::Ident(_)) = (self.spec.lettype.get(&name), &l.pat) {
+                    if let (Some(ty), Pat::Ident(_)) = (self.spec.lettype.get(&name).cloned().as_ref(), &l.pat) {
                         if let Ok(t) = parse_str::<Type>(ty) {
                             let p = l.pat.clone();
                             l.pat = Pat::Type(PatType { attrs: vec![], pat: Box::new(p), colon_token: Default::default(), ty: Box::new(t) });
@@ -486,6 +648,11 @@ impl<'a> VisitMut for Norm<'a> {
                         }
                     }
                 }
+            }
+            // R-REFPAT on `let` patterns (incl. let-else): `Some(&x)` -> `Some(__vx_rN)` + `let x = *__vx_rN;`
+            let mut derefs: Vec<Stmt> = vec![];
+            if let Stmt::Local(l) = &mut s {
+                self.strip_ref_pats(&mut l.pat, &mut derefs);
             }
             let saved = std::mem::take(&mut self.hoisted);
             self.visit_stmt_mut(&mut s);
@@ -508,6 +675,7 @@ impl<'a> VisitMut for Norm<'a> {
             b.stmts.extend(mine);
             b.stmts.extend(before);
             b.stmts.push(s);
+            b.stmts.extend(derefs);
             b.stmts.extend(after);
         }
     }
@@ -515,7 +683,45 @@ impl<'a> VisitMut for Norm<'a> {
     fn visit_expr_mut(&mut self, e: &mut Expr) {
         // ---- pre-order rewrites that change the node kind
         match e {
+            Expr::Block(eb) if eb.label.is_none() && eb.block.stmts.len() == 2 => {
+                // R-MAP(peek_mut): `{ let mut X = R.peek_mut()?; mem::replace(&mut *X, V) }` -> `R.vx_replace_top(V)?`
+                let mut repl: Option<Expr> = None;
+                if let (Stmt::Local(l), Stmt::Expr(Expr::Call(c), None)) = (&eb.block.stmts[0], &eb.block.stmts[1]) {
+                    if let (Pat::Ident(pi), Some(init)) = (&l.pat, &l.init) {
+                        if let (Expr::Try(t), None) = (&*init.expr, &init.diverge) {
+                            if let Expr::MethodCall(mc) = &*t.expr {
+                                if mc.method == "peek_mut" && mc.args.is_empty() && squash(&ts(&c.func)).ends_with("mem::replace") && c.args.len() == 2 {
+                                    let want = format!("&mut*{}", pi.ident);
+                                    if squash(&ts(&c.args[0])) == want {
+                                        let (r, v) = (&mc.receiver, &c.args[1]);
+                                        repl = Some(parse_quote!(#r.vx_replace_top(#v)?));
+                                    }
+                                }
+                            }
+                        }
+                    }
+                }
+                if let Some(r) = repl { *e = r; self.bump("R-MAP(peek_mut)"); }
+            }
+            _ => {}
+        }
+        match e {
             Expr::While(w) => {
+                if let Expr::Let(l) = &mut *w.cond {
+                    // R-MAP(peek_mut): `while let PAT(X) = R.peek_mut().. { .. PeekMut::pop(X) .. }` -> `R.peek()..` / `R.vx_peekmut_pop()`
+                    let binder = Self::single_binder(&l.pat);
+                    let mut probe = (*l.expr).clone();
+                    if let (Some(binder), Some(recv)) = (binder, Self::peek_mut_root(&mut probe)) {
+                        let mut v = PeekMutPop { binder, recv, replaced: 0, other_uses: 0 };
+                        v.visit_block_mut(&mut w.body);
+                        if v.other_uses > 0 {
+                            self.errors.push(format!("`peek_mut()` binder used other than by `PeekMut::pop` in {}", self.fname));
+                        } else {
+                            *l.expr = probe;
+                            self.bump("R-MAP(peek_mut)");
+                        }
+                    }
+                }
                 if let Expr::Let(l) = &*w.cond {
                     if self.spec.whilelet.contains(&(self.loop_no + 1)) {
                         let (pat, ex) = (&l.pat, &l.expr);
@@ -771,7 +977,15 @@ impl<'a> VisitMut for Norm<'a> {
                         new_inputs.push(Pat::Type(PatType { attrs: vec![], pat: pname.clone(), colon_token: Default::default(), ty: pty.clone() }));
                         let old_inner = match old { Pat::Type(t) => &*t.pat, o => o };
                         match old_inner {
-                            Pat::Reference(r) => { let inner = &r.pat; lets.push(parse_quote!(let #inner = *#pname;)); self.bump("R-REFPAT"); }
+                            Pat::Reference(_) => {
+                                let mut depth = 0usize;
+                                let mut cur: Pat = old_inner.clone();
+                                while let Pat::Reference(r) = cur { depth += 1; cur = (*r.pat).clone(); }
+                                let mut ex: Expr = parse_quote!(#pname);
+                                for _ in 0..depth { ex = parse_quote!(*#ex); }
+                                lets.push(parse_quote!(let #cur = #ex;));
+                                self.bump("R-REFPAT");
+                            }
                             Pat::Ident(pi) if pi.ident == ts(pname) => {}
                             other => { lets.push(parse_quote!(let #other = #pname;)); }
                         }
